@@ -1255,6 +1255,12 @@ fn encrypt_write<R: std::io::Read, W: std::io::Write>(
                     }
                 };
 
+                crate::verif_event!(
+                    "enc.chunk",
+                    is_first,
+                    buf.len(),
+                    matches!(length, PacketLength::Partial(_))
+                );
                 if is_first {
                     let packet_header =
                         PacketHeader::from_parts(PacketHeaderVersion::New, tag, length)?;
